@@ -373,6 +373,9 @@ Live_C08_RolledBack_T ==
 
 \* a generated behaviour: the scenario, the history, and what the model expects at its end (compared with the real run
 \* as MODEL-DRIFT notes only - never a verdict)
+\* ... and an action that met a failure does not stay in progress for ever
+Live_C08_FailedEnds_T == \A k \in Cmds : (g[k].failure # "none") ~> (cmd[k].pc \in Terminal)
+
 GenPrint == (Len(h) < MaxLen /\ ENABLED Next) \/
             PrintT(<<"BEH", ToJson([cands |-> [k \in Cmds |-> SetToSeq(cands[k])], need |-> need, h |-> h,
                                     pc |-> [k \in Cmds |-> cmd[k].pc],
